@@ -8,7 +8,7 @@ From Coq Require Import List Arith Bool Permutation.
 Import ListNotations.
 Require Import Fggs.Model.Conj Fggs.Model.TreeDec Fggs.Proofs.TreeDec_tdok Fggs.Model.Factorize
                Fggs.Proofs.Fz_fresh Fggs.Proofs.Fz_rooted Fggs.Proofs.Fz_struct Fggs.Proofs.Fz_main
-               Fggs.Proofs.Fz_bridge Fggs.Proofs.Fz_final Fggs.Proofs.Fz_examples.
+               Fggs.Proofs.Fz_bridge Fggs.Proofs.Fz_final Fggs.Proofs.Fz_inline Fggs.Proofs.Fz_examples.
 
 (** * C05_edges_once
     For EVERY rule, EVERY valid tree decomposition of its primal graph (whatever method produced
@@ -143,3 +143,99 @@ Theorem C05_labels_preserved_refuted :
   exists g orc f, factors_bound g /\ factorize_fgg_model 0 g orc = Ok f /\ ~ factors_bound f.
 Proof. exact labels_preserved_refuted. Qed.
 Print Assumptions C05_labels_preserved_refuted.
+
+(** * C05_inline
+    Under the same hypotheses, replacing (recursively) every edge whose label is the left-hand
+    side of one of the new non-root rules by that rule's right-hand side -- the edge is attached
+    exactly to the rule's externals, node ids are shared -- turns the last rule into the
+    original one: same left-hand side, same externals, same node list up to order (ids with
+    labels, every id once), same edge list up to order (ids, labels, attachments). *)
+Theorem C05_inline :
+  forall r t ords labels rs ls,
+    wf_rule r -> ftd_wfb t = true -> valid_td (primal r) (td_of_ftd t) ->
+    factorize_rule_model r labels t ords = Ok (rs, ls) ->
+    inlines_to r rs.
+Proof. exact inline_final. Qed.
+Print Assumptions C05_inline.
+
+(** * the oracles run on the implementation's output are sound for these specifications *)
+Theorem C05_inline_ok_sound : forall r rs, inline_ok r rs = true -> inlines_to r rs.
+Proof. exact inline_ok_sound. Qed.
+Print Assumptions C05_inline_ok_sound.
+Theorem C05_fresh_ok_sound :
+  forall existing rs, fresh_ok existing rs = true ->
+    exists tbl root, rs = tbl ++ [root]
+      /\ NoDup (map (fun c => el_name (fr_lhs c)) tbl)
+      /\ forall c, In c tbl -> ~ In (el_name (fr_lhs c)) existing /\ el_term (fr_lhs c) = false
+                               /\ count_label (fr_lhs c) rs = 1.
+Proof. exact fresh_ok_sound. Qed.
+Print Assumptions C05_fresh_ok_sound.
+Theorem C05_nodes_ok_sound :
+  forall r t rs, nodes_ok r t rs = true ->
+    forall c, In c rs -> length (fr_nodes c) <= length (fr_nodes r) /\ NoDup (fr_ids c)
+                         /\ (exists b, In b (map fst t) /\ incl (fr_ids c) b /\ incl b (fr_ids c))
+                         /\ incl (fr_nodes c) (fr_nodes r).
+Proof. exact nodes_ok_sound. Qed.
+Print Assumptions C05_nodes_ok_sound.
+Example C05_oracles_example :
+  exists rs ls, factorize_rule_model path4 [] td_acb ords_acb = Ok (rs, ls) /\ length rs = 4
+    /\ inline_ok path4 rs = true /\ fresh_ok [[83]; [116]] rs = true /\ nodes_ok path4 td_acb rs = true.
+Proof. exact path4_acb. Qed.
+
+Require Import Fggs.Model.Semiring Fggs.Model.SumProduct Fggs.Proofs.SP_nonrec Fggs.Proofs.SP_unfold.
+
+(** * C05_sum_product: the unfolding lemma (every commutative semiring)
+    [rule_val] / [step] / [Zk] are the definitions of Model/SumProduct.v (C01: [Zk] = sum over
+    derivation trees).  Replacing an edge labelled [Y] of a rule [rr] by the right-hand side of
+    a rule [c] (externals identified with the attachment nodes) gives a rule whose value is
+    the value of [rr] in the environment where [Y] denotes the value of [c]. *)
+Theorem C05_unfold_rule :
+  forall (R : Type) (o : sr_ops R), sr_ring o ->
+  forall G (e : env (R:=R)) rr es1 Y att es2 c xi,
+    r_edges rr = es1 ++ (Y, att) :: es2 ->
+    unfold_ok G rr es1 es2 att c ->
+    (forall ed, In ed (es1 ++ es2) -> fst ed <> Y) ->
+    (forall ed, In ed (r_edges c) -> fst ed <> Y) ->
+    rule_val o G (fun l => if Nat.eqb l Y then (fun zeta => rule_val o G e c zeta) else e l) rr xi
+    = rule_val o G e (inline_rule rr es1 es2 att c) xi.
+Proof. exact @rule_val_unfold. Qed.
+Print Assumptions C05_unfold_rule.
+
+(** grammar level: [Y] has exactly one rule and exactly one use ([unfolding]); one step of the
+    unfolded grammar's equations is a step of the original ones taken after updating [Y] ... *)
+Theorem C05_unfold_step :
+  forall (R : Type) (o : sr_ops R), sr_ring o ->
+  forall G' ir rr es1 Y att es2 c, unfolding G' ir rr es1 Y att es2 c ->
+  forall w x X xi, X <> Y ->
+    step o (unfolded G' ir rr es1 att es2 c) w x X xi
+    = step o G' w (updY Y x (step o G' w x Y)) X xi.
+Proof. exact @step_unfold. Qed.
+Print Assumptions C05_unfold_step.
+(** ... so the solutions of the two systems of equations are the same ... *)
+Theorem C05_unfold_fixpoints :
+  forall (R : Type) (o : sr_ops R), sr_ring o ->
+  forall G' ir rr es1 Y att es2 c, unfolding G' ir rr es1 Y att es2 c ->
+  forall w x, fixpoint o G' w x <-> fixpoint o (unfolded G' ir rr es1 att es2 c) w x.
+Proof. exact @fixpoint_unfold_iff. Qed.
+Print Assumptions C05_unfold_fixpoints.
+(** ... and for a non-recursive grammar the sum-product of EVERY nonterminal (stabilised Kleene
+    iterate = sum over all derivation trees, C01) is unchanged.
+    FULL STATEMENT (open, see notes/C05.md): for every FGG, every valid decomposition and every
+    order, [Zk] of [to_sp_grammar] of the factorised grammar equals [Zk] of [to_sp_grammar] of
+    the original one on every original nonterminal.  Proved: one folding/unfolding step
+    (this theorem) and that the factorised rule inlines to the original one ([C05_inline]);
+    open: the composition (the id-based inlining of [C05_inline] is an iteration of the
+    positional [inline_rule] up to a permutation of the node positions).  Covered per case by
+    the check function [fz_sp_check] (exact [Ztab] of both grammars). *)
+Theorem C05_sum_product_partial :
+  forall (R : Type) (o : sr_ops R), sr_ring o ->
+  forall G' ir rr es1 Y att es2 c, unfolding G' ir rr es1 Y att es2 c ->
+  forall w rank, ranked G' rank ->
+  forall X xi, is_term G' X = false ->
+    Zk o (unfolded G' ir rr es1 att es2 c) w (S (rank X)) X xi = Zk o G' w (S (rank X)) X xi.
+Proof. exact @Zk_unfold_nonrec. Qed.
+Print Assumptions C05_sum_product_partial.
+Example C05_unfolding_example :
+  unfolding ex_G 0 ex_rr [(2, [0; 1])] 1 [1] [] ex_c
+  /\ ranked ex_G (fun l => match l with 0 => 2 | 1 => 1 | _ => 0 end).
+Proof. exact unfolding_ranked_example. Qed.
